@@ -172,8 +172,12 @@ func matchFinding(fs []Finding, prop, name string) *Finding {
 // (one level): e.g. unmarshalling (C05) is lexing strings (C20), scoping (C02), building blocks (C03),
 // selecting them (C04) and binding (C15); the file format (C14) is what Dump/Load write and read (C09).
 var propDeps = map[string][]string{
-	"C03": {"C02", "C04"},
-	"C05": {"C01", "C02", "C03", "C04", "C15", "C20"},
+	// what a program means (C01-C04) is stated over well-formed code: the compiler side of C10
+	"C01": {"C10"},
+	"C02": {"C10"},
+	"C03": {"C02", "C04", "C10"},
+	"C04": {"C10"},
+	"C05": {"C01", "C02", "C03", "C04", "C15", "C20", "C10"},
 	"C06": {"C10"}, // the VM is safe on well-formed code: what the compiler emits (C10) is its hypothesis
 	"C07": {"C08", "C11", "C20"},
 	"C08": {"C07"},
@@ -181,10 +185,11 @@ var propDeps = map[string][]string{
 	"C11": {"C07"},
 	"C12": {"C16"},
 	"C13": {"C09"},
-	"C14": {"C09"},
+	"C14": {"C09", "C18"}, // the files users keep are written by the command line tool
 	"C15": {"C05"},
 	"C16": {"C12"},
 	"C17": {"C20", "C01", "C02"},
+	"C18": {"C11"}, // the tool reads FILE and standard input through the file pipeline
 	"C19": {"C08"},
 	"C20": {"C07", "C17"},
 }
